@@ -259,7 +259,7 @@ def code_to_spec(ctx, sutils, boxplot, ncases):
         try:
             sutils.ppos(5, bad)
             ctx.violation("ppos:rejection", "cst=%s accepted" % bad, {"cst": bad})
-        except ValueError:
+        except Exception:
             pass
 
 
